@@ -3,6 +3,7 @@ package main
 import (
 	"encoding/json"
 	"fmt"
+	"math/big"
 	"os"
 	"path/filepath"
 	"reflect"
@@ -29,6 +30,13 @@ type c11Case struct {
 	Text string `json:"text"`
 	Kind string `json:"kind"`
 	Base string `json:"base,omitempty"`
+	// operand probes (part C)
+	Mn      string `json:"mnemonic,omitempty"`
+	Slot    string `json:"slot,omitempty"`
+	Operand string `json:"operand,omitempty"`
+	// long-line variants (part B): the text is rebuilt from (base, line, size)
+	Line int `json:"line,omitempty"`
+	Size int `json:"size,omitempty"`
 }
 
 var specRegs = func() map[string]risc.RegisterType {
@@ -278,6 +286,36 @@ func c11Check(text string) (string, string, bool) {
 	return "ok", "", true
 }
 
+// c11Variant: text must parse to the same result as ref.
+func c11Variant(ref risc.Application, text string) (string, string) {
+	app, err, pan := safeParse(text)
+	switch {
+	case pan != nil:
+		return "panic", fmt.Sprint(pan)
+	case err != nil:
+		return "variant-rejected", err.Error()
+	case !sameApp(app, ref):
+		return "variant-differs", fmt.Sprintf("%d instructions, labels %v; base: %d instructions, labels %v", len(app.Instructions), app.Labels, len(ref.Instructions), ref.Labels)
+	}
+	return "ok", ""
+}
+
+func c11LongText(base, kind string, line, size int) string {
+	lines := strings.Split(base, "\n")
+	switch kind {
+	case "long-comment-line":
+		v := append(append(append([]string{}, lines[:line]...), "#"+strings.Repeat("x", size)), lines[line:]...)
+		return strings.Join(v, "\n")
+	case "long-indent":
+		lines[line] = strings.Repeat(" ", size) + lines[line]
+	case "long-trailing-blanks":
+		lines[line] = lines[line] + strings.Repeat(" ", size)
+	case "long-trailing-comment":
+		lines[line] = lines[line] + " # " + strings.Repeat("y", size)
+	}
+	return strings.Join(lines, "\n")
+}
+
 func sameApp(a, b risc.Application) bool {
 	if len(a.Instructions) != len(b.Instructions) || !reflect.DeepEqual(a.Labels, b.Labels) {
 		return false
@@ -447,17 +485,51 @@ func c11Run(c *RunCtx) {
 			}
 			item++
 			c.Sum.Evaluations++
-			app, err, pan := safeParse(text)
-			switch {
-			case pan != nil:
-				report(kind, name, text, "panic", fmt.Sprint(pan))
-			case err != nil:
-				report(kind, name, text, "variant-rejected", err.Error())
-			case !sameApp(app, ref):
-				report(kind, name, text, "variant-differs", fmt.Sprintf("%d instructions, labels %v; base: %d instructions, labels %v", len(app.Instructions), app.Labels, len(ref.Instructions), ref.Labels))
-			default:
+			class, detail := c11Variant(ref, text)
+			if class != "ok" {
+				report(kind, name, text, class, detail)
+			} else {
 				c.Sum.Outcomes["variant-same"]++
 				accepted[text] = true
+			}
+		}
+		// long lines: a comment line, a trailing comment, indentation or trailing blanks of `size` bytes
+		longVariant := func(kind string, line, size int) {
+			if !c.Mine(item) {
+				item++
+				return
+			}
+			item++
+			c.Sum.Evaluations++
+			class, detail := c11Variant(ref, c11LongText(base, kind, line, size))
+			if class != "ok" {
+				c.Outcome(class)
+				if c.nFails < 2000 {
+					c.Fail("parser/"+class, class, c11Case{Kind: kind, Base: name, Line: line, Size: size}, detail)
+				}
+			} else {
+				c.Sum.Outcomes["variant-same"]++
+				c.Sum.Outcomes["long-line-variant-same"]++
+			}
+		}
+		sizes := []int{70000}
+		if c.Thorough() {
+			sizes = []int{4096, 65535, 65536, 70000, 1 << 20}
+		}
+		for _, size := range sizes {
+			for i := 0; i <= len(lines); i++ {
+				longVariant("long-comment-line", i, size)
+			}
+			for i, l := range lines {
+				t := strings.TrimSpace(l)
+				if t == "" {
+					continue
+				}
+				longVariant("long-indent", i, size)
+				longVariant("long-trailing-blanks", i, size)
+				if !strings.HasSuffix(t, ":") && t[0] != '#' && strings.Contains(t, " ") {
+					longVariant("long-trailing-comment", i, size)
+				}
 			}
 		}
 		for i := 0; i <= len(lines); i++ {
@@ -495,13 +567,269 @@ func c11Run(c *RunCtx) {
 		}
 		variant("crlf-free-trailing-newlines", base+"\n\n\n")
 	}
+	// ---- part C: operand probes, independent of the parser's own tables
+	for _, pr := range c11OperandProbes() {
+		if !c.Mine(item) {
+			item++
+			continue
+		}
+		item++
+		c.Sum.Evaluations++
+		class, detail, acc := c11OperandCheck(pr)
+		if acc {
+			accepted[pr.Text] = true
+			c.Sum.Outcomes["operand-probe-accepted"]++
+		} else if class == "ok" {
+			c.Sum.Outcomes["operand-probe-rejected"]++
+		}
+		if class != "ok" {
+			c.Outcome(class)
+			c.Fail("parser/"+class, class, pr, detail)
+		}
+	}
 	c.Sum.Nontrivial = int64(len(accepted))
 	c.Sum.States = c.Sum.Evaluations
 	c.Sum.Transitions = c.Sum.Evaluations
 	c.Sum.Validated = c.Sum.Evaluations
-	c.Sum.Rule = fmt.Sprintf("IX: every string of <= %d tokens over the %d-token alphabet %q, plus every single-edit mutant (delete/duplicate/truncate a token, insert ( ) , : # tab huge-number, truncate the text at every byte, duplicate a label) and metamorphic variant (blank/comment lines, indentation, trailing blanks/comments, mnemonic case) of %d well-formed programs; non-trivial = distinct strings the parser accepted (their structure is then checked against the independent classifier)", maxTok, nt, c11Tokens, len(bases))
+	c.Sum.Rule = fmt.Sprintf("IX: every string of <= %d tokens over the %d-token alphabet %q, plus every single-edit mutant (delete/duplicate/truncate a token, insert ( ) , : # tab huge-number, truncate the text at every byte, duplicate a label) and metamorphic variant (blank/comment lines, indentation, trailing blanks/comments, mnemonic case, and the same with lines of up to %d bytes) of %d well-formed programs; plus operand probes: every mnemonic x every register slot x all 64 register spellings (32 ABI names, with and without $) and %d non-names, every immediate slot x %d canonical / %d non-canonical / %d unrepresentable decimal strings, each accepted probe compared through ReadRegisters/WriteRegisters, MemoryRead/MemoryWrite and one Run with the independent register table and the RV32IM table; non-trivial = distinct strings the parser accepted (their structure is then checked against the independent classifier)", maxTok, nt, c11Tokens, sizes11(c.Thorough()), len(bases), len(c11NotRegisters), len(c11ImmCanonical), len(c11ImmNonCanonical), len(c11ImmUnrepresentable))
+	c.Assume("an accepted immediate written as an optional sign and decimal digits must be decoded as that decimal number; one that does not fit 32 bits cannot be decoded and must be rejected; hexadecimal or other non-decimal spellings are not judged")
 	c.Assume("a label line is a line without a space that ends with ':'; duplicate labels may resolve to any of their definitions")
 	c.Assume("operand decoding is compared with the parse of the canonical rendering produced by an independent tokenizer; the meaning of canonical renderings is checked by C02")
+}
+
+// ---- part C helpers
+
+func c11OperandText(sp *c02Spec, rd, rs1, rs2, imm string) string {
+	var ins string
+	switch sp.kind {
+	case kR:
+		ins = fmt.Sprintf("%s %s, %s, %s", sp.mn, rd, rs1, rs2)
+	case kI, kJalr:
+		ins = fmt.Sprintf("%s %s, %s, %s", sp.mn, rd, rs1, imm)
+	case kU, kAuipc:
+		ins = fmt.Sprintf("%s %s, %s", sp.mn, rd, imm)
+	case kMv:
+		ins = fmt.Sprintf("%s %s, %s", sp.mn, rd, rs1)
+	case kB2:
+		ins = fmt.Sprintf("%s %s, %s, target", sp.mn, rs1, rs2)
+	case kB1:
+		ins = fmt.Sprintf("%s %s, target", sp.mn, rs1)
+	case kJ:
+		ins = "j target"
+	case kJal:
+		ins = fmt.Sprintf("jal %s, target", rd)
+	case kLoad:
+		ins = fmt.Sprintf("%s %s, %s(%s)", sp.mn, rd, imm, rs1)
+	case kStore:
+		ins = fmt.Sprintf("%s %s, %s(%s)", sp.mn, rs2, imm, rs1)
+	case kSh:
+		ins = fmt.Sprintf("%s %s, %s, %s", sp.mn, rs2, imm, rs1)
+	case kNop, kRet:
+		ins = sp.mn
+	}
+	return ins + "\nnop\nnop\ntarget:\nnop\n"
+}
+
+// strings that name no register
+var c11NotRegisters = []string{"s12", "t7", "a8", "x5", "zero0", "$$t0", "t", "$", "0", "t0t0", "ra1", "s", "sp0", "$x"}
+
+// decimal immediates: canonical in-range forms (must be accepted and decoded
+// exactly), non-canonical forms (sign/leading zeros: if accepted, decoded as
+// decimal), and values no 32-bit immediate can hold (must be rejected).
+var c11ImmCanonical = []string{"0", "1", "-1", "9", "10", "2047", "-2048", "2048", "65535", "1048576", "2147483640", "-2147483640", "2147483647", "-2147483648"}
+var c11ImmNonCanonical = []string{"+7", "007", "-007", "010", "-010", "0000000000000000000000012", "-0", "08", "0777"}
+var c11ImmUnrepresentable = []string{"2147483648", "-2147483649", "4294967296", "4294967301", "-4294967291", "99999999999", "9223372036854775807", "9223372036854775808", "-9223372036854775809", "18446744073709551621", "-18446744073709551611", "340282366920938463463374607431768211461"}
+
+func c11OperandProbes() []c11Case {
+	var out []c11Case
+	for si := range c02Specs {
+		sp := &c02Specs[si]
+		urd, urs1, urs2, uimm := sp.uses()
+		slots := []string{}
+		if urd {
+			slots = append(slots, "rd")
+		}
+		if urs1 {
+			slots = append(slots, "rs1")
+		}
+		if urs2 {
+			slots = append(slots, "rs2")
+		}
+		for _, slot := range slots {
+			for _, n := range fullRegNames {
+				out = append(out, c11Case{Kind: "register-name", Mn: sp.mn, Slot: slot, Operand: n})
+				out = append(out, c11Case{Kind: "register-name", Mn: sp.mn, Slot: slot, Operand: "$" + n})
+			}
+			for _, n := range c11NotRegisters {
+				out = append(out, c11Case{Kind: "not-a-register", Mn: sp.mn, Slot: slot, Operand: n})
+			}
+		}
+		if uimm {
+			for _, v := range c11ImmCanonical {
+				out = append(out, c11Case{Kind: "immediate-canonical", Mn: sp.mn, Slot: "imm", Operand: v})
+			}
+			for _, v := range c11ImmNonCanonical {
+				out = append(out, c11Case{Kind: "immediate-noncanonical", Mn: sp.mn, Slot: "imm", Operand: v})
+			}
+			for _, v := range c11ImmUnrepresentable {
+				out = append(out, c11Case{Kind: "immediate-unrepresentable", Mn: sp.mn, Slot: "imm", Operand: v})
+			}
+		}
+	}
+	for i := range out {
+		out[i].Text = c11ProbeText(out[i])
+	}
+	return out
+}
+
+func c11ProbeText(k c11Case) string {
+	sp := specKinds[k.Mn]
+	rd, rs1, rs2, imm := "t0", "t1", "t2", "0"
+	switch k.Slot {
+	case "rd":
+		rd = k.Operand
+	case "rs1":
+		rs1 = k.Operand
+	case "rs2":
+		rs2 = k.Operand
+	case "imm":
+		imm = k.Operand
+		rs1 = "zero"
+	}
+	return c11OperandText(sp, rd, rs1, rs2, imm)
+}
+
+// c11OperandCheck: class, detail, accepted.
+func c11OperandCheck(k c11Case) (string, string, bool) {
+	sp := specKinds[k.Mn]
+	if sp == nil {
+		return "ok", "unknown mnemonic in case", false
+	}
+	text := c11ProbeText(k)
+	app, err, pan := safeParse(text)
+	if pan != nil {
+		return "panic", fmt.Sprint(pan), false
+	}
+	if err != nil {
+		if k.Kind == "register-name" || k.Kind == "immediate-canonical" {
+			return "operand-rejected", fmt.Sprintf("%q: %v", strings.Split(text, "\n")[0], err), false
+		}
+		return "ok", "", false
+	}
+	first := strings.Split(text, "\n")[0]
+	if len(app.Instructions) != 4 || app.Labels["target"] != c02Target {
+		return "wrong-instruction-count", fmt.Sprintf("%d instructions, labels %v", len(app.Instructions), app.Labels), true
+	}
+	switch k.Kind {
+	case "not-a-register":
+		return "unnamed-register-accepted", fmt.Sprintf("%q accepted although %q names no register; decoded %+v", first, k.Operand, app.Instructions[0]), true
+	case "immediate-unrepresentable":
+		return "unrepresentable-immediate-accepted", fmt.Sprintf("%q accepted although %s does not fit a 32-bit immediate; decoded %+v", first, k.Operand, app.Instructions[0]), true
+	}
+	rd, rs1, rs2 := risc.T0, risc.T1, risc.T2
+	var imm int32
+	switch k.Slot {
+	case "rd":
+		rd = specRegs[k.Operand]
+	case "rs1":
+		rs1 = specRegs[k.Operand]
+	case "rs2":
+		rs2 = specRegs[k.Operand]
+	case "imm":
+		v, ok := new(big.Int).SetString(k.Operand, 10)
+		if !ok || !v.IsInt64() || v.Int64() != int64(int32(v.Int64())) {
+			return "ok", "case not decimal", true
+		}
+		imm = int32(v.Int64())
+		rs1 = risc.Zero
+	}
+	p := &c02Probe{sp: sp, ins: app.Instructions[0], lbl: app.Labels, ctx: risc.NewContext(false, 16, false), text: text, rd: rd, rs1: rs1, rs2: rs2, imm: imm}
+	urd, urs1, urs2, _ := sp.uses()
+	if !urd {
+		p.rd = risc.Zero
+	}
+	if !urs1 {
+		p.rs1 = risc.Zero
+	}
+	if !urs2 {
+		p.rs2 = risc.Zero
+	}
+	if class, detail := p.declared(); class != "ok" {
+		return "wrong-operands", fmt.Sprintf("%q: %s", first, detail), true
+	}
+	// one execution: the named registers hold distinct values, everything else 0
+	if sp.kind == kLoad || sp.kind == kStore || sp.kind == kSh {
+		// addresses only (the immediate may point anywhere)
+		p.ins.Forward(risc.Forward{})
+		for r, v := range map[risc.RegisterType]int32{rd: 0x1100, rs1: 0x40, rs2: 0x3300} {
+			if r != risc.Zero {
+				p.ctx.Registers[r] = v
+			}
+		}
+		base := p.ctx.Registers[p.rs1]
+		var want []int32
+		for i := 0; i < sp.bytes; i++ {
+			want = append(want, base+imm+int32(i))
+		}
+		got := p.ins.MemoryRead(p.ctx, 0)
+		if sp.kind != kLoad {
+			got = p.ins.MemoryWrite(p.ctx, 0)
+		}
+		if !sameAddrs(got, want) {
+			return "wrong-operands", fmt.Sprintf("%q: accesses %v, the operands name %v", first, got, want), true
+		}
+		return "ok", "", true
+	}
+	class, detail := guard(func() (string, string) { return c11RunProbe(p) })
+	if class != "ok" {
+		return "wrong-operands", fmt.Sprintf("%q: %s: %s", first, class, detail), true
+	}
+	return "ok", "", true
+}
+
+// c11RunProbe runs a non-memory probe once with distinct values in the named
+// registers and compares the effect with the RV32IM table of C02.
+func c11RunProbe(p *c02Probe) (string, string) {
+	vals := map[risc.RegisterType]int32{}
+	for _, rv := range []struct {
+		r risc.RegisterType
+		v int32
+	}{{p.rd, 0x1111}, {p.rs2, 0x0333}, {p.rs1, 0x0044}} {
+		if rv.r != risc.Zero {
+			vals[rv.r] = rv.v
+		}
+	}
+	for k := range p.ctx.Registers {
+		delete(p.ctx.Registers, k)
+	}
+	for k, v := range vals {
+		p.ctx.Registers[k] = v
+	}
+	a, b := uint32(vals[p.rs1]), uint32(vals[p.rs2])
+	if p.sp.skipB != nil && p.sp.skipB(b) {
+		return "ok", ""
+	}
+	want, _, _ := p.sp.expect(p.rd, p.rs1, p.rs2, a, b, p.imm, 0, nil)
+	p.ins.Forward(risc.Forward{})
+	exe, err := p.ins.Run(p.ctx, p.lbl, 0, nil, 0)
+	if err != nil {
+		return "error", err.Error()
+	}
+	got, msg := observed(exe)
+	if msg != "" {
+		return "zero-register", msg
+	}
+	if !sameEffect(got, want) {
+		return "wrong-effect", fmt.Sprintf("observed {%v}, RV32IM {%v}", got, want)
+	}
+	return "ok", ""
+}
+
+func sizes11(thorough bool) int {
+	if thorough {
+		return 1 << 20
+	}
+	return 70000
 }
 
 func sortStrings(s []string) {
@@ -543,6 +871,15 @@ func init() {
 		Replay: func(prop string, raw json.RawMessage) (string, string) {
 			var k c11Case
 			json.Unmarshal(raw, &k)
+			if k.Mn != "" {
+				class, detail, _ := c11OperandCheck(k)
+				return class, detail
+			}
+			if strings.HasPrefix(k.Kind, "long-") {
+				base := c11Bases()[k.Base]
+				ref, _, _ := safeParse(base)
+				return c11Variant(ref, c11LongText(base, k.Kind, k.Line, k.Size))
+			}
 			if strings.HasPrefix(k.Kind, "insert-blank") || k.Kind == "indent" || k.Kind == "trailing-blanks" || k.Kind == "trailing-comment" || k.Kind == "mnemonic-case" || k.Kind == "crlf-free-trailing-newlines" {
 				base := c11Bases()[k.Base]
 				ref, _, _ := safeParse(base)
